@@ -964,6 +964,15 @@ def outcome_edges(fn, local, kind=None, uses=None):
                     out.sinks.append(c.resolved)
     if not any_use:
         out.discarded = True
+    # drop elaboration re-tests the discriminant after the program's own test
+    # (open drop of an enum): a switch dominated by another switch on the same
+    # value adds only path-correlated, infeasible edges — keep the first tests.
+    sbs = {a for (a, _) in out.ok | out.err if fn.bbs[a]['t'][0] == 'sw'}
+    if len(sbs) > 1:
+        dom = dominators(fn)
+        drop = {a for a in sbs if any(b != a and b in dom[a] for b in sbs)}
+        out.ok = {e for e in out.ok if e[0] not in drop}
+        out.err = {e for e in out.err if e[0] not in drop}
     return out
 
 
